@@ -111,3 +111,35 @@ func firstLine(s string) string {
 }
 
 func init() { customRunners["C20"] = runC20 }
+
+func runC07(tier string) int {
+	scratch, err := os.MkdirTemp("", "gomacro-ov-c07-")
+	if err != nil {
+		fmt.Fprintln(os.Stderr, err)
+		return 2
+	}
+	defer os.RemoveAll(scratch)
+	ov := overlay.New(evid.VerifDir)
+	if err := ov.Maps(scratch, "./analysis/...", "./generator/..."); err != nil {
+		fmt.Fprintln(os.Stderr, "INTERNAL ERROR: instrumenting map ranges:", err)
+		return 2
+	}
+	bin, err := buildOverlay(ov, "c07h", scratch)
+	if err != nil {
+		fmt.Fprintln(os.Stderr, "BUILD FAILED:", err)
+		return 2
+	}
+	cmd := exec.Command(bin, tier)
+	cmd.Env = append(os.Environ(), "VERIF_DIR="+evid.VerifDir, "VERIF_C07_SITES="+strings.Join(ov.Sites, ","))
+	cmd.Stdout, cmd.Stderr = os.Stdout, os.Stderr
+	if err := cmd.Run(); err != nil {
+		if ee, ok := err.(*exec.ExitError); ok {
+			return ee.ExitCode()
+		}
+		fmt.Fprintln(os.Stderr, err)
+		return 2
+	}
+	return 0
+}
+
+func init() { customRunners["C07"] = runC07 }
